@@ -569,6 +569,32 @@ func domCheck(sum *Summary, c json.RawMessage, gc *graphCase, rng *rand.Rand, he
 						sum.viol("IDom", c, "placement %v root %d: idom[%d]=%d want %d", p, rr.R, p[x], idom[p[x]], want)
 					}
 				}
+				// Dom: child lists invert IDom, each child once; same numbering
+				func() {
+					defer func() {
+						if r := recover(); r != nil {
+							sum.viol("Dom", c, "placement %v root %d: Dom(%v) panics: %v", p, rr.R, idom, r)
+						}
+					}()
+					t := graphalg.Dom(append([]int{}, idom...))
+					if t.NumNodes() != len(idom) {
+						sum.viol("Dom", c, "NumNodes %d want %d", t.NumNodes(), len(idom))
+						return
+					}
+					for x := range idom {
+						var want []int
+						for v, d := range idom {
+							if d == x {
+								want = append(want, v)
+							}
+						}
+						got := append([]int{}, t.Out(x)...)
+						sort.Ints(got)
+						if !intsEq(got, want) || t.IDom(x) != idom[x] {
+							sum.viol("Dom", c, "placement %v root %d: children of %d = %v want %v (idom %v); tree IDom(%d)=%d", p, rr.R, x, t.Out(x), want, idom, x, t.IDom(x))
+						}
+					}
+				}()
 				df := graphalg.DomFrontier(bg, p[rr.R], idom)
 				dontcare := -1
 				if rr.RootIn == 1 || rr.RootInReach == 1 {
